@@ -108,7 +108,7 @@ RegexScan(t, p) ==
 
 Punct(t, p) ==
   LET c == t[p+1]
-      two == IF p + 1 < Len(t) /\ Len(t[p+2]) = 1 THEN c \o t[p+2] ELSE "" IN
+      two == IF p + 1 < Len(t) THEN c \o t[p+2] ELSE "" IN
   IF two \in Punct2 THEN Res("tok", Tok(two, p, 0, <<c, t[p+2]>>), p + 2)
   ELSE IF c \in Punct1 THEN Res("tok", Tok(c, p, 0, <<c>>), p + 1)
   ELSE Res("err", NoTok, p)     \* illegal character (also a lone & or |)
@@ -209,7 +209,7 @@ WellFormed(T) ==
     LET prev == IF i = 1 THEN "" ELSE T[i-1].tag IN
     /\ T[i].tag = "Regex" => /\ prev \notin OperandEnd
                              /\ \A j \in 1..Len(T[i].text) : T[i].text[j] # "/"
-                             /\ (T[i].text = <<>> \/ T[i].text[1] # "=")
+                             /\ (Len(T[i].text) = 0 \/ T[i].text[1] # "=")
     /\ T[i].tag = "/" => prev \in OperandEnd
     /\ T[i].tag = "/=" => prev \in OperandEnd
     /\ T[i].tag = "Str" => AllowedQuotes(T[i]) # {}
